@@ -177,18 +177,33 @@ func c20PartModel(lookup bool) *mc.Model {
 					st.toks["c"] = st.toks["c"][1:]
 				}
 			}
+			// the gauges must report what the strategy enforces (the getters); whether that is the right
+			// share is C03's and C05's question
+			enforcedBin := func(key string) (int, bool) {
+				switch s := st.s.(type) {
+				case *strategy.LookupPartitionStrategy:
+					v, err := s.BinLimit(key)
+					return v, err == nil
+				case *strategy.PredicatePartitionStrategy:
+					v, err := s.BinLimit(map[string]int{"a": 0, "b": 1, "c": 2}[key])
+					return v, err == nil
+				}
+				return 0, false
+			}
 			if st.added {
-				want := share(st.lim, 0.2)
-				if g, ok := st.reg.Gauge(core.MetricPartitionLimit + "{partition:c}"); !ok || int(g) != want {
+				want, okw := enforcedBin("c")
+				if g, ok := st.reg.Gauge(core.MetricPartitionLimit + "{partition:c}"); okw && (!ok || int(g) != want) {
 					t.Fail(kind+"/partition-gauge", "limit.partition gauge of the added partition c = %v (registered=%v), enforced share %d", g, ok, want)
 				}
 			}
-			if g, ok := st.reg.Gauge(core.MetricLimit); !ok || int(g) != st.lim {
-				t.Fail(kind+"/limit-gauge", "limit gauge=%v (registered=%v), enforced limit %d", g, ok, st.lim)
+			if enforced := (stratView{s: st.s}).Limit(); enforced >= 0 {
+				if g, ok := st.reg.Gauge(core.MetricLimit); !ok || int(g) != enforced {
+					t.Fail(kind+"/limit-gauge", "limit gauge=%v (registered=%v), enforced limit %d", g, ok, enforced)
+				}
 			}
-			for key, f := range fr {
-				want := share(st.lim, f)
-				if g, ok := st.reg.Gauge(core.MetricPartitionLimit + "{partition:" + key + "}"); !ok || int(g) != want {
+			for key := range fr {
+				want, okw := enforcedBin(key)
+				if g, ok := st.reg.Gauge(core.MetricPartitionLimit + "{partition:" + key + "}"); okw && (!ok || int(g) != want) {
 					t.Fail(kind+"/partition-gauge", "limit.partition gauge of %s = %v (registered=%v), enforced share %d", key, g, ok, want)
 				}
 			}
